@@ -282,11 +282,28 @@ func main() {
 	sc.none, _ = schema.Load("none")
 	extDir := filepath.Join(base, "ext")
 	_ = os.MkdirAll(extDir, 0o755)
+	// the path the external copy is loaded from has a past: a schema that accepts everything, then
+	// the shipped schema.json next to relaxed definitions, were loaded from it before the shipped
+	// files were put there (a loader that remembers documents by location would serve stale ones)
+	shipped := map[string][]byte{}
 	for _, f := range []string{"schema.json", "defs.json"} {
 		b, e := os.ReadFile(filepath.Join(hx.RepoRoot, "schema", f))
 		if e != nil {
 			die(2, "INFRA:", e)
 		}
+		shipped[f] = b
+	}
+	_ = os.WriteFile(filepath.Join(extDir, "schema.json"), []byte(`{}`), 0o644)
+	_ = os.WriteFile(filepath.Join(extDir, "defs.json"), []byte(`{}`), 0o644)
+	if _, e := schema.Load(filepath.Join(extDir, "schema.json")); e != nil {
+		die(2, "INFRA: Load(<schema that accepts everything>):", e)
+	}
+	_ = os.WriteFile(filepath.Join(extDir, "schema.json"), shipped["schema.json"], 0o644)
+	_ = os.WriteFile(filepath.Join(extDir, "defs.json"), bytes.ReplaceAll(shipped["defs.json"], []byte(`"additionalProperties": false`), []byte(`"additionalProperties": true`)), 0o644)
+	if _, e := schema.Load(filepath.Join(extDir, "schema.json")); e != nil {
+		die(2, "INFRA: Load(<shipped schema.json with relaxed definitions>):", e)
+	}
+	for f, b := range shipped {
 		_ = os.WriteFile(filepath.Join(extDir, f), b, 0o644)
 	}
 	sc.external, err = schema.Load(filepath.Join(extDir, "schema.json"))
